@@ -1,6 +1,6 @@
 #!/usr/bin/env python3
 """Generate the prompts for independent seeding agents (they get only the property text and a scratch worktree).
-usage: mkseedprompts.py <round-tag> <kind: break|refactor|small> <outdir> [ids...]"""
+usage: mkseedprompts.py <round-tag> <kind: break|refactor|refactor2|small> <outdir> [ids...]"""
 import json
 import os
 import subprocess
@@ -107,6 +107,8 @@ Final answer: one paragraph per refactoring (directory, function touched, kind o
 '''
 
 
+REFACTOR2 = REFACTOR.replace('''these are the kind of clean-ups a maintainer makes: renaming locals, extracting or inlining a helper,''', '''this round asks for STRUCTURAL clean-ups, at least three of the four must be of these kinds: extracting a block into a new private helper function or method (including one that is called from inside an expression or returns early from a loop), inlining an existing small helper into its only caller, moving a helper to another module of the package and importing it, renaming a private function / method / parameter / attribute consistently, splitting a long function into two phases, merging two small functions, replacing a nested function by a method, introducing a small value object or tuple for values that travel together.  The fourth may be a local idiom change: renaming locals,''')
+
 SMALL = '''
 ## What to produce
 
@@ -164,8 +166,8 @@ def main():
         a = d['anchors']
         anchors = 'files: ' + ', '.join(a['files']) + '\n' + '\n'.join('- %s: %s (%s)' % (s['name'], s.get('meaning', ''), s['where']) for s in a.get('state', [])) + '\n' + \
             '\n'.join('- %s (%s)' % (m['name'], m['where']) for m in a.get('mechanism', [])) + '\nobserve at: ' + '; '.join(a.get('observe_at', []))
-        what = {'break': 'seed a property-breaking change into Erotemic/xdoctest (second round)', 'small': 'seed small property-breaking slips into Erotemic/xdoctest', 'refactor': 'behaviour-preserving refactorings of Erotemic/xdoctest'}[kind]
-        text = (HEAD + {'break': BREAK, 'refactor': REFACTOR, 'small': SMALL}[kind]).format(what=what, wt=wt, id=d['id'], title=d['title'], statement=d['statement'], qover=d['quantifier']['over'],
+        what = {'break': 'seed a property-breaking change into Erotemic/xdoctest (second round)', 'small': 'seed small property-breaking slips into Erotemic/xdoctest', 'refactor': 'behaviour-preserving refactorings of Erotemic/xdoctest', 'refactor2': 'behaviour-preserving structural refactorings of Erotemic/xdoctest'}[kind]
+        text = (HEAD + {'break': BREAK, 'refactor': REFACTOR, 'refactor2': REFACTOR2, 'small': SMALL}[kind]).format(what=what, wt=wt, id=d['id'], title=d['title'], statement=d['statement'], qover=d['quantifier']['over'],
                                                                          qtext=d['quantifier']['text'], why=d['why_tests_cant'], anchors=anchors, tag=tag)
         open(os.path.join(outdir, '%s-%s.md' % (tag, d['id'])), 'w').write(text)
         print(tag, d['id'], wt)
